@@ -608,7 +608,8 @@ def nontrivial(stream, case, out):
 
 def valid_case(stream, case, impl_out, model_out):
     if stream == "fbshape-ref":
-        return ref_parse(case) is not None and not any("bad-op" in l for l in impl_out)
+        p = ref_parse(case)
+        return p is not None and not any("bad-op" in l for l in impl_out) and (p["mode"] != "swc" or ref_swc_in_scope(p))
     return parse_case(case) is not None and not any("bad-op" in l for l in impl_out)
 
 
@@ -911,6 +912,29 @@ def ref_parse(case):
     return dict(shape=w[1], kind=kind, npos=npos, mode=w[2], script=script, run_index=len(case.lines) - 1)
 
 
+def ref_swc_in_scope(p):
+    """switch_ forwards a reference to the selected argument only while (a) the selected argument is valid and (b) its
+    ticks change something; outside of that it resets / filters the output itself (C12's subject, not a feedback matter)"""
+    cur = {True: None, False: None}
+    for (_, sel, a, b) in p["script"]:
+        for tgt, ws in ((True, a), (False, b)):
+            if ws is None:
+                continue
+            c = cur[tgt] if cur[tgt] is not None else {}
+            if cur[tgt] is not None:
+                if any(q not in c for q in ws[1]) or (p["kind"] == "set" and any(q in c for q in ws[0])):
+                    return False
+            elif ws[1] or not ws[0]:
+                return False
+            for q in ws[1]:
+                c.pop(q, None)
+            c.update(ws[0])
+            cur[tgt] = c
+        if sel is not None and cur[sel] is None:
+            return False
+    return True
+
+
 def ref_out_line(line, kind):
     f = line.split(" ")
     if len(f) != 6 or not (f[0].startswith("t=") and f[1].startswith("cyc=") and f[2].startswith("w=") and f[3].startswith("r=")
@@ -956,6 +980,7 @@ def ref_check(case, out):
         if ot != t:
             bad.append("[lines] cycle line %d reports time %d, expected %d" % (k, ot, t))
         # ---- the reader side: exactly what the port ticked with one smallest step earlier
+        before = (dict(reader.items), reader.valid)
         if pending is None:
             exp_r = None
         else:
@@ -968,9 +993,9 @@ def ref_check(case, out):
             rm, rr = r if r is not None else ({}, set())
             em, er = exp_r if exp_r is not None else ({}, set())
             tag = pend_class if pend_class else None
-            if exp_r is None and w is not None and fmt(kind, r) == fmt(kind, w):
+            if pending is None and w is not None and fmt(kind, r) == fmt(kind, w):
                 bad.append("[same-cycle] the reader saw a delta in the cycle that wrote it: t=%d %s" % (t, fmt(kind, r)))
-            elif exp_r is None and pending is None:
+            elif pending is None:
                 bad.append("[untimely] the reader ticked although the producer port did not tick one step earlier: t=%d saw %s" % (t, fmt(kind, r)))
             else:
                 missing = sorted(set(em) - set(rm)) + sorted(er - rr)
@@ -986,6 +1011,8 @@ def ref_check(case, out):
             # go on from what the reader really holds (so that one loss is reported once, not in every later cycle)
             if r is not None and v not in (None, "invalid"):
                 reader.items, reader.valid = dict(v[0]), True
+            else:
+                reader.items, reader.valid = before
         elif r is not None:
             n_ticks += 1
             if fmt_val(kind, v) != fmt_val(kind, exp_v):
@@ -1098,8 +1125,11 @@ def gen_ref_case(rng, idx):
             cb = set(ca)
         else:
             cb = set(rng.sample(univ, rng.randrange(0, 4)))
+    if mode == "swc" and not cb:
+        cb = {rng.randrange(6)}
     cur = {True: {}, False: {}}       # what the script has put into A / B
     valid = {True: False, False: False}
+    noop_p = 0.0 if mode == "swc" else 0.1     # switch_ does not forward a tick that changes nothing (C12's subject)
 
     def writes(tgt, first):
         """a write to target tgt -> text (and the script's own view of the contents is updated)"""
@@ -1123,12 +1153,12 @@ def gen_ref_case(rng, idx):
                 present = q in c
                 x = rng.random()
                 if kind == "set":
-                    if present != (x < 0.1):
+                    if present != (x < noop_p):
                         rems.add(q)
                     else:
                         mods[q] = 0
                 else:
-                    if (present and x < 0.45) or (not present and x < 0.08):
+                    if (present and x < 0.45) or (not present and x < 0.8 * noop_p):
                         rems.add(q)
                     else:
                         mods[q] = val()
@@ -1139,6 +1169,8 @@ def gen_ref_case(rng, idx):
         return w2s("set" if kind == "set" else "dict", mods, rems)
 
     start = rng.choice(["both-then-select", "both-then-select", "select-first", "one-valid", "all-at-once", "late-b"])
+    if mode == "swc":
+        start = rng.choice(["both-then-select", "all-at-once"])   # a switch_ onto a branch whose argument is not valid resets the output
     lines, cond = [], None
     for k in range(n):
         sel, wa, wb = None, False, False
@@ -1260,7 +1292,7 @@ def ref_exhaustive(start_idx):
 def ref_stream(rng, tier):
     n = 420 if tier == "quick" else 12000
     cases = [gen_ref_case(rng, 50000 + i) for i in range(n)]
-    cases += ref_directed(50000 + n)
+    cases += [c for c in ref_directed(50000 + n) if " swc" not in c.lines[1] or ref_swc_in_scope(ref_parse(c))]
     if tier != "quick":
         cases += ref_exhaustive(80000)
     cdir = os.path.join(os.path.dirname(os.path.dirname(os.path.dirname(os.path.abspath(__file__)))), "corpus", "C08")
